@@ -93,7 +93,7 @@ fn install_panic_hook() {
 // ---------------------------------------------------------------------------------------
 
 static UNIQ: AtomicU64 = AtomicU64::new(0);
-/// above this many TIME_WAIT sockets (of ~28000 ephemeral ports) new scenarios wait
+/// above this many ephemeral ports held in TIME_WAIT (of ~28000) new scenarios wait
 const TIME_WAIT_HIGH: u64 = 20000;
 
 fn exec_once(env: &Env, case: &Case, deadline_s: u64, short_udp: bool) -> Outcome {
@@ -135,7 +135,7 @@ fn exec(env: &Env, case: &Case, deadline_s: u64, short_udp: bool, tally: &Tally)
     for attempt in 0..8u64 {
         // keep clear of ephemeral-port exhaustion (every closed connection lingers 60 s in TIME_WAIT)
         let mut waited = 0u64;
-        while waited < 90_000 && super::c01_env::time_wait_count().is_some_and(|tw| tw > TIME_WAIT_HIGH) {
+        while waited < 90_000 && super::c01_env::ephemeral_ports_in_time_wait().is_some_and(|tw| tw > TIME_WAIT_HIGH) {
             std::thread::sleep(Duration::from_millis(250));
             waited += 250;
         }
